@@ -54,6 +54,33 @@ CHECKS = {
     },
 }
 
+CHECKS['C03'] = {
+    'verus_units': ['eval'],
+    'technique': 'contract-based deductive verification (Verus): arms of ExpressionExecutionEngine::evaluate extracted from /repo and proved against a recursive specification sem_eval written from the property text; structural induction through the contract of evaluate',
+    'claim': 'Proof, for all expression trees, rows and values, that the extracted arms of evaluate (literal, column access, comparison, IS, arithmetic, unary, AND/OR, IN/NOT IN, subscript, CASE) return exactly sem_eval(expression, row) - comparisons by value and false on NULL, NULL-propagating arithmetic with overflow and division by zero as errors, two-valued logic, IN as OR of =, first true CASE branch, 1-based subscripts - or an error when sem_eval has no value.',
+    'note': 'Trusted: derived comparison of Value (uninterpreted value_cmp; its laws are C16), IEEE and chrono arithmetic as uninterpreted total functions, ValueType::parse, closure/loop contracts spliced by ordinal (rule E5). Unproved arms: FunctionCall, TypeConversion, Aggregate lookup; lowering of parse trees and result column names are not covered.',
+    'level': 'proof',
+    'explanation': 'Each match arm of evaluate is emitted as its own function (rule E3) whose body is the arm text from /repo; recursive calls see the full contract of evaluate, so the arms together are a proof by structural induction that evaluate refines sem_eval.',
+    'trusted': COMMON_TRUST + [
+        'value_cmp (derived Ord on Value) is uninterpreted here; C16 establishes its laws on the real impls',
+        'f64 arithmetic and chrono DateTime/Duration arithmetic are uninterpreted total functions (chrono range overflow is not modelled)',
+        'termination of evaluate (recursion on strict sub-expressions) is not checked: evaluate is external_body for its callers',
+    ],
+    'unproved': ['evaluate arms FunctionCall (all functions), TypeConversion, Aggregate', 'parser_tree_converter lowering, projection naming'],
+}
+CHECKS['C09'] = {
+    'verus_units': ['eval', 'follow'],
+    'only_safety': True,
+    'clause_prefixes': ['c09'],
+    'technique': 'contract-based deductive verification (Verus): absence of arithmetic overflow, division by zero, failed callee preconditions (unwrap, indexing, unreachable!) in every extracted function',
+    'claim': 'Proof that the extracted functions (listed in the evidence) cannot overflow, divide by zero, index out of bounds, unwrap None or reach unimplemented!/panic! for any input; this is the safety half of the obligations of the other checks, collected per function. Functions not under contract are listed as unproved.',
+    'note': 'Trusted: as for the units involved. Termination is proved only where a decreases clause exists. Not covered: OutputPrinter, execute_result table assembly, tokenizer/parser, chrono internals, local time zone handling.',
+    'level': 'proof',
+    'explanation': 'Verus generates, for every extracted function, the obligations that each arithmetic operation fits its type, each divisor is non-zero, each index is in bounds and each callee precondition (including `requires false` of the unimplemented!/panic! stand-in) holds; this check counts exactly those.',
+    'trusted': COMMON_TRUST,
+    'unproved': ['OutputPrinter::print', 'AggregateExecutionEngine::execute_result / accept_group', 'ValueType::parse timestamp branch (Local time zone)', 'Value::json_value'],
+}
+
 NOT_APPLICABLE = {
     'C17': 'Printed records: OutputPrinter::print / Display for Value / JSON rendering are format!/write!/serde_json string construction; Verus has no specification of formatted output and rejects the constructs, Kani does not terminate on string code here. No contract within reach expresses the property.',
     'C18': 'Determinism / hash-seed independence is a 2-safety property over runs whose only threat is iteration over std HashMap; the iterating functions are outside Verus\' accepted subset and Kani must stub RandomState to a constant, which assumes the property away.',
